@@ -34,12 +34,16 @@ structure Oracle where
   startedEver : List String := []
   terminatingEver : List String := []
   readySince : List String := []
+  stopBegun : List String := []              -- a stop/restart/shutdown of the name has begun executing
   stopReq : List String := []                -- a stop of the name (or a shutdown) has been served
   everStopped : List String := []
   launchedEver : List String := []
   fatalPending : List String := []           -- fatal readiness failure delivered, relaunch expected
   runAtShutdown : List String := []
   shutdownReturned : Bool := false
+  shutdownBegun : Bool := false
+  sdSignalled : List String := []            -- names signalled since the running shutdown began
+  sdHandled : List String := []              -- the running shutdown has finished stopping these names
   triggers : List (String × Int × Bool) := []   -- (process, code, genuine)
   calls : List (String × List String) := []     -- api id ↦ op words
   prevCmd : List String := []
@@ -50,6 +54,7 @@ structure Oracle where
   quiescent : Bool := false
   ovNames : List String := []        -- names that had two unfinished instances at the same time
   winNames : List String := []       -- names touched inside another thread's check-then-act window
+  staleNames : List String := []     -- names whose (re)started instance did not begin in state Pending
   steps : Nat := 0
 deriving Repr, Inhabited
 
@@ -98,6 +103,7 @@ def isRunningSt (s : String) : Bool := s == "Running" || s == "Launching" || s =
 def legalEdge (a b : String) : Bool :=
   match a with
   | "Pending" => b == "Running" || b == "Launching" || b == "Skipped" || b == "Terminating" || b == "Error"
+      || b == "Completed"   -- stopped before start: ended without ever being launched
   | "Running" => b == "Restarting" || b == "Terminating" || b == "Completed" || b == "Error" || b == "Launched"
   | "Launching" => b == "Launched" || b == "Restarting" || b == "Terminating" || b == "Completed" || b == "Error"
   | "Launched" => b == "Restarting" || b == "Terminating" || b == "Completed"
@@ -119,6 +125,7 @@ def gateMet (o : Oracle) (k c : String) : Bool :=
   -- process_started: the dependency started, or it has ended / was stopped and is therefore no
   -- longer scheduled to run (DESIGN.md 6.6)
   | _ => o.startedEver.contains k || o.doneEver.contains k || o.terminatingEver.contains k || o.everStopped.contains k
+          || o.stopBegun.contains k
 
 /-- the process whose thread ran in this step (`s run proc:X#n`) -/
 def actor (op : List String) : String :=
@@ -143,7 +150,8 @@ def onObs (o : Oracle) (op : List String) (cmdAfter : List String)
     -- the first status write of a freshly started instance (made by its own goroutine)
     let me := match op with | ["s", "run", key] => key | _ => ""
     let isFresh := o.fresh.contains me && me.startsWith ("proc:" ++ x ++ "#")
-    let ok := if isFresh then freshEdge s || legalEdge prev s else legalEdge prev s
+    -- `Pending` is written when a new instance is created: the explicit new start
+    let ok := s == "Pending" || (if isFresh then freshEdge s || legalEdge prev s else legalEdge prev s)
     let fails := if ok then [] else [s!"C09:illegal-transition {x} {prev}->{s}"]
     let fails := if s == "Skipped" && lookupD o.launchesInst x 0 > 0 then fails ++ [s!"C05:skipped-after-launch {x}"] else fails
     let o := { o with status := setKV o.status x s, fresh := if isFresh then delS o.fresh me else o.fresh }
@@ -163,6 +171,10 @@ def onObs (o : Oracle) (op : List String) (cmdAfter : List String)
     let afterStop := if o.stopReq.contains x then
         [s!"C02:launch-after-stop {x}", s!"C08:launch-after-stop {x}"] ++
         (if o.shutdownReturned then [s!"C03:launch-after-shutdown {x}"] else []) else []
+    -- a command launched while a shutdown is in progress will never be signalled by it
+    let during := if o.shutdownBegun && o.sdHandled.contains x then
+        [s!"C03:launch-during-shutdown {x}", s!"C02:launch-during-shutdown {x}"] else []
+    let afterStop := afterStop ++ during
     let isRe := lookupD o.launchesInst x 0 > 0
     let code := lookupD o.lastCode x 0
     let pol := if !isRe then [] else
@@ -185,14 +197,14 @@ def onObs (o : Oracle) (op : List String) (cmdAfter : List String)
     let dies := wasAlive && (sig == "9" || d.onSignal != "ign")
     let code : Int := if sig == "9" then -1 else d.onSignal.toInt?.getD 0
     let o := if dies then { o with lastCode := setKV o.lastCode x code, natural := delS o.natural x } else o
-    let o := if actor op == "" then o else o
+    let o := if o.shutdownBegun then { o with sdSignalled := addS o.sdSignalled x } else o
     (o, c12)
-  | ["sdorder", l] => ({ o with runAtShutdown := csv l }, [])
-  | ["sdorder"] => ({ o with runAtShutdown := [] }, [])
+  | ["sdorder", l] => ({ o with runAtShutdown := csv l, stopBegun := (csv l).foldl addS o.stopBegun, shutdownBegun := true }, [])
+  | ["sdorder"] => ({ o with runAtShutdown := [], shutdownBegun := true }, [])
   | ["sdreturned"] =>
     let alive := if cmdAfter.isEmpty then [] else [s!"C03:alive-after-shutdown {",".intercalate cmdAfter}"]
     let running := st.filterMap fun (n, (s, _)) => if isRunningSt s then some s!"C03:reported-running-after-shutdown {n} {s}" else none
-    ({ o with shutdownReturned := true, stopReq := o.decls.map (·.name),
+    ({ o with shutdownReturned := true, shutdownBegun := false, sdHandled := [], sdSignalled := [], stopReq := o.decls.map (·.name),
               everStopped := o.decls.foldl (fun l d => addS l d.name) o.everStopped }, alive ++ running)
   | ["projexit", c] =>
     let x := actor op
@@ -257,13 +269,16 @@ def obsMentions (obs : List String) (x : String) : Bool :=
 def tagFail (o : Oracle) (f : String) : String :=
   let ws := words f
   let raw := ws.getD 1 ""
+  let kind := ws.getD 0 ""
+  let isHang := (kind.splitOn "blocked-forever").length > 1 || (kind.splitOn "never-returns").length > 1
   let names : List String :=
+    if isHang then o.decls.map (·.name) else    -- a deadlock blocks bystanders too: judge the scenario
     match procNameOfKey raw with
     | some x => [x]
     | none => if raw.startsWith "api:" || raw.startsWith "stopper:" then o.decls.map (·.name) else csv raw
   let t1 := if names.any (o.ovNames.contains ·) then " [overlap]" else ""
   let t2 := if names.any (o.winNames.contains ·) then " [window]" else ""
-  let t3 := if names.any (fun n => lookupD o.seenSeq n 0 ≥ 2) then " [restarted]" else ""
+  let t3 := if names.any (o.staleNames.contains ·) then " [stale]" else ""
   f ++ t1 ++ t2 ++ t3
 
 def feed (o : Oracle) (op : List String) (impl : String) : Oracle × String :=
@@ -284,6 +299,7 @@ def feed (o : Oracle) (op : List String) (impl : String) : Oracle × String :=
         let n := n.toNat?.getD 0
         if n > lookupD o.seenSeq x 0 then
           { o with seenSeq := setKV o.seenSeq x n, fresh := addS o.fresh key,
+
                    found := o.found.filter (·.1 ≠ x), launchesInst := setKV o.launchesInst x 0 }
         else o
       | _ => o
@@ -304,6 +320,21 @@ def feed (o : Oracle) (op : List String) (impl : String) : Oracle × String :=
     | _ => o
   -- root-cause bookkeeping
   let cur := parseTh th
+  -- names the running shutdown is done with: their waiter exists / their stopper is past the stop
+  let o := if o.shutdownBegun then
+      { o with sdHandled := cur.foldl (fun l (kl : String × String) =>
+          if kl.1.startsWith "waiter:" then addS l (((kl.1.drop 7).toString.splitOn "#").headD "")
+          else if kl.1.startsWith "stopper:" && kl.2 == "wait:done" then addS l (((kl.1.drop 8).toString.splitOn "#").headD "")
+          else l) o.sdHandled }
+    else o
+  -- stop / restart requests that have begun executing (their thread has left `begin`)
+  let o := cur.foldl (fun o (kl : String × String) =>
+    if kl.1.startsWith "api:" && kl.2 != "begin" then
+      match lookupD o.calls (((kl.1.drop 4).toString.splitOn "#").headD "") [] with
+      | ["stop", x] => { o with stopBegun := addS o.stopBegun x }
+      | ["restart", x] => { o with stopBegun := addS o.stopBegun x }
+      | _ => o
+    else o) o
   let prev := parseTh o.lastTh
   let actorKey := match op with | ["s", "run", key] => key | _ => ""
   let procNames := cur.filterMap fun (k, _) => procNameOfKey k
@@ -314,7 +345,22 @@ def feed (o : Oracle) (op : List String) (impl : String) : Oracle × String :=
   let winB := match procNameOfKey actorKey with
     | some x => if obsMentions obs x && prev.any (fun (k, l) => k ≠ actorKey && stopWinLabels.contains l) then [x] else []
     | none => []
-  let o := { o with winNames := (winA ++ winB).foldl addS o.winNames }
+  -- a stop / restart / shutdown request progresses while the target's goroutine sits in a window
+  -- (the request may have nothing to observe: a stop of a Restarting process is a silent no-op)
+  let targets : List String :=
+    if actorKey.startsWith "api:" then
+      match lookupD o.calls (((actorKey.drop 4).toString.splitOn "#").headD "") [] with
+      | ["stop", x] => [x]
+      | ["restart", x] => [x]
+      | ["shutdown"] => o.decls.map (·.name)
+      | _ => []
+    else if actorKey.startsWith "stopper:" then [((actorKey.drop 8).toString.splitOn "#").headD ""]
+    else if actorKey.startsWith "proc:" && (obs.any fun (ob : String) => ob.startsWith "sdorder") then o.decls.map (·.name)
+    else []
+  let winC := prev.filterMap fun (k, l) => match procNameOfKey k with
+    | some x => if k ≠ actorKey && procWinLabels.contains l && targets.contains x then some x else none
+    | none => none
+  let o := { o with winNames := (winA ++ winB ++ winC).foldl addS o.winNames }
   let (o, fails) := obs.foldl (fun (acc : Oracle × List String) ob =>
     let (o', f) := onObs acc.1 op cmd st ob
     (o', acc.2 ++ f)) (o, [])
@@ -331,6 +377,14 @@ def feed (o : Oracle) (op : List String) (impl : String) : Oracle × String :=
 
 /-- Judgement of the final state (`end quiescent`: nothing enabled, nothing alive, no timer). -/
 def finish (o : Oracle) (reason : String) : Oracle × String :=
+  -- "stalled": no thread is runnable, a shutdown is in progress and commands are still alive: the
+  -- shutdown call waits for commands that nobody is going to signal
+  if reason == "stalled" then
+    let unsignalled := o.lastCmd.filter (!o.sdSignalled.contains ·)
+    (if o.shutdownBegun && !(o.lastTh.contains '*') && !unsignalled.isEmpty then
+      (o, verdictOf ([s!"C03:shutdown-stalled-on-live-command {",".intercalate unsignalled}"].map (tagFail o)))
+     else (o, "ok"))
+  else
   if reason != "quiescent" || !o.quiescent then (o, "ok") else
   let st := parseSt o.lastSt
   let ths := csv o.lastTh
